@@ -84,6 +84,13 @@ def readCString (remaining : Bytes) : GoVal × Nat :=
   let p := remaining.takeWhile (· != 0)
   if p.length < remaining.length then (.str p, p.length + 1) else (.str remaining, remaining.length)
 
+/-- the value of a non-nil varlena payload (fix 05): an empty payload of a text-like type is a value of its
+own, everything else goes to `DecodeType` -/
+def varlenaVal (dec : Dec) (val : Bytes) (typid : Int) : M GoVal :=
+  match (if val.length = 0 then emptyVarlena typid else none) with
+  | some g => pure g
+  | none => dec val typid
+
 /-- heap.go:readValue — (value, bytes consumed) -/
 def readValue (dec : Dec) (data : Bytes) (offset : Nat) (typid len : Int) : M (GoVal × Nat) :=
   if offset ≥ data.length then pure (.nil, 0)
@@ -99,12 +106,9 @@ def readValue (dec : Dec) (data : Bytes) (offset : Nat) (typid len : Int) : M (G
       let r ← readVarlena remaining
       match r.1 with
       | none => pure (.nil, max r.2 1)
-      | some val =>
-        match (if val.length = 0 then emptyVarlena typid else none) with
-        | some g => pure (g, r.2)
-        | none => do
-          let v ← dec val typid
-          pure (v, r.2)
+      | some val => do
+        let v ← varlenaVal dec val typid
+        pure (v, r.2)
     else pure (readCString remaining)
 
 /-- the alignment DecodeTuple applies at `offset`: a varlena column whose next byte is non-zero is not aligned
